@@ -6,6 +6,7 @@ package main
 import (
 	"encoding/json"
 	"fmt"
+	"math/rand"
 	"os"
 	"path/filepath"
 	"sort"
@@ -279,6 +280,9 @@ func runCheck(prop, tier string) int {
 	}
 
 	units := spec.Units(tier, seed, sh)
+	if tier == "thorough" && spec.WallBudget != nil {
+		units = orderForBudget(units, spec.Units("quick", seed, sh))
+	}
 	for _, u := range units {
 		if sh.entry(u.Entry) == nil {
 			fmt.Printf("INCONCLUSIVE property=%s harness entry %s missing\n", prop, u.Entry)
@@ -316,6 +320,9 @@ func runCheck(prop, tier string) int {
 	var deadline time.Time
 	if spec.WallBudget != nil {
 		deadline = start.Add(spec.WallBudget(tier))
+		if *flagBudget > 0 {
+			deadline = start.Add(time.Duration(*flagBudget) * time.Minute)
+		}
 	}
 
 	results, solverStats, funcSteps, stubs, skippedUnits := runUnits(sh, spec, units, solverKind, timeoutMs, maxSteps, maxPaths, deadline)
@@ -824,3 +831,34 @@ func replayCommand(prop, path string) int {
 }
 
 var _ = ssa.NewProgram
+
+// orderForBudget orders the units of a wall-budgeted thorough run: first the
+// units whose subject (entry + first argument) the quick tier also explores, in
+// their given order, then all others in a fixed pseudo-random order. If the
+// budget ends the run early, what was explored beyond the quick tier is then an
+// even sample of the deeper family rather than its first few members; the
+// units not reached are reported as a reduced bound.
+func orderForBudget(units, quick []Unit) []Unit {
+	key := func(u Unit) string {
+		k := u.Entry
+		if len(u.Args) > 0 {
+			k += "\x00" + u.Args[0]
+		}
+		return k
+	}
+	inQuick := map[string]bool{}
+	for _, u := range quick {
+		inQuick[key(u)] = true
+	}
+	var first, rest []Unit
+	for _, u := range units {
+		if inQuick[key(u)] {
+			first = append(first, u)
+		} else {
+			rest = append(rest, u)
+		}
+	}
+	rng := rand.New(rand.NewSource(20260926))
+	rng.Shuffle(len(rest), func(i, j int) { rest[i], rest[j] = rest[j], rest[i] })
+	return append(first, rest...)
+}
